@@ -97,6 +97,21 @@ def run_case(case, root, cap=90.0):
             return r
 
         srv._process = process
+        if cplan == "drop_before_close":
+            # schedule control: the client's CLOSE is only sent once the server has dropped the link
+            # (otherwise the case silently degenerates into drop_at_close)
+            real_areq = b.client._async_request
+
+            def areq(fileobj, t, *a):
+                if t == 4:
+                    import time as _t
+
+                    end = _t.monotonic() + 10
+                    while not close_seen and _t.monotonic() < end:
+                        _t.sleep(0.0005)
+                return real_areq(fileobj, t, *a)
+
+            b.client._async_request = areq
     cb_calls = []
     cb = (lambda done, total: cb_calls.append((done, total))) if case.get("callback") else None
     box = dict(done=False, exc=None, ret=None, sink=None)
